@@ -39,7 +39,7 @@ fn repo_schemas() -> &'static Vec<(String, String)> {
                 }
             }
         }
-        walk(std::path::Path::new("/repo"), &mut v, 0);
+        walk(std::path::Path::new(&crate::repo_root()), &mut v, 0);
         v.sort();
         v
     })
